@@ -228,3 +228,126 @@ Example C15_sub_notif_roundtrip_nonvacuous :
   ser_sub_notif b#"sub" (SubStr b#"0xcafe") false b#"[-5,""two"",{}]" =
     b#"{""jsonrpc"":""2.0"",""method"":""sub"",""params"":{""subscription"":""0xcafe"",""result"":[-5,""two"",{}]}}".
 Proof. exact sub_notif_roundtrip_nonvacuous. Qed.
+
+(* ================= sequence forms of the derived structs (serde visit_seq; Model/Wire.v de_struct) =================
+   ser_array ts   : the text `[t1,t2,...]` assembled from element texts (Proofs/WireFacts.v), as ser_object for members
+   span_ok t      : t is one complete JSON value without leading whitespace (no UTF-8 requirement)
+   array_elems t  : the element spans of a top-level array text (Vec<&RawValue>) *)
+
+(* [code,"message",data-or-null] is read as the same error object as the object form the library writes *)
+Theorem C15_seq_form_errobj : forall e : errobj,
+  -2147483648 <= e_code e < 2147483648 -> utf8_valid (e_message e) = true ->
+  match e_data e with Some d => raw_payload d /\ nonnull d | None => True end ->
+  parse_errobj (ser_array [print_Z (e_code e); ser_str (e_message e); match e_data e with Some d => d | None => b#"null" end])
+    = Some e /\
+  parse_errobj (ser_array [print_Z (e_code e); ser_str (e_message e); match e_data e with Some d => d | None => b#"null" end])
+    = parse_errobj (ser_errobj e).
+Proof. exact seq_form_errobj. Qed.
+Print Assumptions C15_seq_form_errobj.
+
+(* the same for ALL field texts, valid or not: the array [c,m,d] is read exactly as {"code":c,"message":m,"data":d} *)
+Theorem C15_seq_form_errobj_fields : forall c m d : bytes, span_ok c -> span_ok m -> span_ok d ->
+  parse_errobj (ser_array [c; m; d]) = parse_errobj (ser_object [(k_code, c); (k_message, m); (k_data, d)]).
+Proof. exact seq_form_errobj_fields. Qed.
+Print Assumptions C15_seq_form_errobj_fields.
+
+(* an array text of any other length is rejected by every derived reader; an array is never a Response *)
+Theorem C15_seq_form_exact_length : forall (t : bytes) (els : list bytes), array_elems t = Some els ->
+  (length els <> 3%nat -> parse_errobj t = None) /\
+  (length els <> 4%nat -> parse_request t = None) /\
+  (length els <> 3%nat -> parse_notification t = None) /\
+  (length els <> 1%nat -> parse_invalid t = None) /\
+  (forall key, length els <> 2%nat -> parse_sub_payload key t = None) /\
+  (forall key, length els <> 3%nat -> parse_sub_notif key t = None) /\
+  parse_response t = None.
+Proof. exact seq_form_exact_length. Qed.
+Print Assumptions C15_seq_form_exact_length.
+
+(* at the right length the fields are taken by position (seq_errobj / seq_request / seq_notification in Model/Wire.v) *)
+Theorem C15_seq_form_positional : forall t : bytes,
+  (forall c m d, array_elems t = Some [c; m; d] -> parse_errobj t = seq_errobj [c; m; d]) /\
+  (forall j i me p, array_elems t = Some [j; i; me; p] -> parse_request t = seq_request [j; i; me; p]) /\
+  (forall j me p, array_elems t = Some [j; me; p] -> parse_notification t = seq_notification [j; me; p]) /\
+  (forall i, array_elems t = Some [i] -> parse_invalid t = parse_id i).
+Proof. exact seq_form_positional. Qed.
+Print Assumptions C15_seq_form_positional.
+
+Theorem C15_seq_form_request : forall r : request,
+  wf_id (rq_id r) -> utf8_valid (rq_method r) = true ->
+  match rq_params r with Some p => raw_payload p /\ nonnull p | None => True end ->
+  parse_request (ser_array [ser_str v_two; ser_id (rq_id r); ser_str (rq_method r);
+                            match rq_params r with Some p => p | None => b#"null" end]) = Some r.
+Proof. exact seq_form_request. Qed.
+Print Assumptions C15_seq_form_request.
+
+Theorem C15_seq_form_notification : forall (me : bytes) (p : option bytes),
+  utf8_valid me = true ->
+  match p with Some p' => raw_payload p' /\ nonnull p' | None => True end ->
+  parse_notification (ser_array [ser_str v_two; ser_str me; match p with Some p' => p' | None => b#"null" end]) = Some (me, p).
+Proof. exact seq_form_notification. Qed.
+Print Assumptions C15_seq_form_notification.
+
+(* a subscription notification with the sequence form at either or both levels (Notification = [jsonrpc,method,params],
+   SubscriptionPayload = [subscription,result] / SubscriptionPayloadError = [subscription,error]) is read as the same
+   (method, subscription id, payload) as the object form the library writes *)
+Theorem C15_seq_form_sub_notif : forall (me : bytes) (sid : subid) (is_err : bool) (raw : bytes),
+  utf8_valid me = true -> wf_subid sid -> raw_payload raw ->
+  let key := if is_err then k_error else k_result in
+  let pay_obj := ser_object [(k_subscription, ser_subid sid); (key, raw)] in
+  let pay_seq := ser_array [ser_subid sid; raw] in
+  let outer_obj := fun p => ser_object [(k_jsonrpc, ser_str v_two); (k_method, ser_str me); (k_params, p)] in
+  let outer_seq := fun p => ser_array [ser_str v_two; ser_str me; p] in
+  outer_obj pay_obj = ser_sub_notif me sid is_err raw /\
+  parse_sub_notif key (outer_obj pay_obj) = Some (me, sid, raw) /\
+  parse_sub_notif key (outer_obj pay_seq) = Some (me, sid, raw) /\
+  parse_sub_notif key (outer_seq pay_obj) = Some (me, sid, raw) /\
+  parse_sub_notif key (outer_seq pay_seq) = Some (me, sid, raw).
+Proof. exact seq_form_sub_notif. Qed.
+Print Assumptions C15_seq_form_sub_notif.
+
+(* with the PAYLOAD in sequence form the member name is gone: the same text is accepted under either key, i.e. by the
+   SubscriptionResponse reader and by the SubscriptionError reader alike (contrast C15_sub_notif_kind_distinguished;
+   the client tries SubscriptionResponse first, so such a frame is always an item, never a close) *)
+Theorem C15_seq_form_sub_kind_lost : forall (me : bytes) (sid : subid) (raw key1 key2 : bytes),
+  utf8_valid me = true -> wf_subid sid -> raw_payload raw ->
+  let t := ser_object [(k_jsonrpc, ser_str v_two); (k_method, ser_str me); (k_params, ser_array [ser_subid sid; raw])] in
+  parse_sub_notif key1 t = Some (me, sid, raw) /\ parse_sub_notif key2 t = Some (me, sid, raw).
+Proof. exact seq_form_sub_kind_lost. Qed.
+Print Assumptions C15_seq_form_sub_kind_lost.
+
+(* the concrete frames measured on the compiled client *)
+Example C15_seq_form_errobj_example :
+  parse_errobj b#"[-32000,""boom"",null]" = Some {| e_code := -32000; e_message := b#"boom"; e_data := None |} /\
+  parse_errobj b#" [ -32000 , ""boom"" , {""a"":1} ] " = Some {| e_code := -32000; e_message := b#"boom"; e_data := Some b#"{""a"":1}" |} /\
+  parse_response b#"{""jsonrpc"":""2.0"",""id"":0,""error"":[-32000,""boom"",null]}" =
+    Some {| rs_jsonrpc := true; rs_payload := PError {| e_code := -32000; e_message := b#"boom"; e_data := None |}; rs_id := IdNum 0 |} /\
+  ser_array [print_Z (-32000); ser_str b#"boom"; b#"null"] = b#"[-32000,""boom"",null]".
+Proof. repeat split; vm_compute; reflexivity. Qed.
+
+Example C15_seq_form_exact_length_example :
+  parse_errobj b#"[-32000,""boom""]" = None /\ parse_errobj b#"[-32000,""boom"",null,1]" = None /\
+  parse_errobj b#"[]" = None /\
+  parse_response b#"{""jsonrpc"":""2.0"",""id"":0,""error"":[-32000,""boom""]}" = None /\
+  parse_request b#"[""2.0"",5,""echo""]" = None /\ parse_request b#"[""2.0"",5,""echo"",[1],null]" = None /\
+  parse_notification b#"[""2.0"",""alpha""]" = None /\ parse_notification b#"[""2.0"",""alpha"",[7],1]" = None /\
+  parse_invalid b#"[]" = None /\ parse_invalid b#"[1,2]" = None /\
+  parse_sub_notif k_result b#"{""jsonrpc"":""2.0"",""method"":""ev1"",""params"":[1]}" = None /\
+  parse_sub_notif k_result b#"{""jsonrpc"":""2.0"",""method"":""ev1"",""params"":[1,5,6]}" = None /\
+  parse_response b#"[""2.0"",5,1]" = None.
+Proof. repeat split; vm_compute; reflexivity. Qed.
+
+Example C15_seq_form_sub_notif_example :
+  parse_sub_notif k_result b#"{""jsonrpc"":""2.0"",""method"":""ev1"",""params"":[1,5]}" = Some (b#"ev1", SubNum 1, b#"5") /\
+  parse_sub_notif k_result b#"[""2.0"",""ev1"",{""subscription"":1,""result"":5}]" = Some (b#"ev1", SubNum 1, b#"5") /\
+  parse_sub_notif k_result b#"[""2.0"",""ev1"",[1,5]]" = Some (b#"ev1", SubNum 1, b#"5") /\
+  parse_sub_notif k_error b#"{""jsonrpc"":""2.0"",""method"":""ev1"",""params"":[1,5]}" = Some (b#"ev1", SubNum 1, b#"5") /\
+  parse_sub_notif k_error b#"[""2.0"",""ev1"",{""subscription"":1,""result"":5}]" = None /\
+  (* the array frame `[["2.0","ev1",{"subscription":1,"result":5}]]`: one element, a Notification in sequence form *)
+  array_elems b#"[[""2.0"",""ev1"",{""subscription"":1,""result"":5}]]" = Some [b#"[""2.0"",""ev1"",{""subscription"":1,""result"":5}]"] /\
+  (* `[["2.0","alpha",[7]]]`: a method notification `alpha` with params [7] *)
+  array_elems b#"[[""2.0"",""alpha"",[7]]]" = Some [b#"[""2.0"",""alpha"",[7]]"] /\
+  parse_notification b#"[""2.0"",""alpha"",[7]]" = Some (b#"alpha", Some b#"[7]") /\
+  parse_notification b#"[""2.0"",""alpha"",null]" = Some (b#"alpha", None) /\
+  parse_request b#"[""2.0"",5,""echo"",[1]]" = Some {| rq_id := IdNum 5; rq_method := b#"echo"; rq_params := Some b#"[1]" |} /\
+  parse_invalid b#"[null]" = Some IdNull.
+Proof. repeat split; vm_compute; reflexivity. Qed.
